@@ -668,6 +668,19 @@ static void setup_jmpbuf_rstack(struct mcount_thread_data *mtdp, unsigned long a
 		jbstack->rstack[i] = mtdp->rstack[i];
 }
 
+static void update_pltgot(struct mcount_thread_data *mtdp, struct plthook_data *pd, int dyn_idx);
+
+/*
+ * A library call left by longjmp() or by an exception never runs
+ * plthook_exit(): re-arm its GOT entry here, otherwise later calls of that
+ * function go straight to the resolved address and are not traced any more.
+ */
+void mcount_plthook_rearm(struct mcount_thread_data *mtdp, struct mcount_ret_stack *rstack)
+{
+	if (rstack->dyn_idx != MCOUNT_INVALID_DYNIDX && rstack->pd != NULL)
+		update_pltgot(mtdp, rstack->pd, rstack->dyn_idx);
+}
+
 static void restore_jmpbuf_rstack(struct mcount_thread_data *mtdp, unsigned long addr)
 {
 	int i;
@@ -680,6 +693,10 @@ static void restore_jmpbuf_rstack(struct mcount_thread_data *mtdp, unsigned long
 	ASSERT(!list_no_entry(jbstack, &jmpbuf_list, list));
 
 	pr_dbg2("restore jmpbuf rstack at %lx (%d entries)\n", addr, jbstack->count);
+
+	/* the calls above the setjmp() are abandoned */
+	for (i = jbstack->count; i < mtdp->idx; i++)
+		mcount_plthook_rearm(mtdp, &mtdp->rstack[i]);
 
 	mtdp->idx = jbstack->count;
 	mtdp->record_idx = jbstack->record_idx;
